@@ -649,15 +649,17 @@ EVALFLEX_C06 = ["EvalFlexAbs." + n for n in [
 
 EVALFLEX_C04_MODULES = ["TaffyVerif.Props.EvalFlexScale"]
 EVALFLEX_C04 = ["C04Flex." + n for n in [
-    "flex_split", "flex_after_main_homogeneous", "flex_prefix_sim", "simS_iff_scaleProg", "noIntrinsicMain_iff",
-    "flex_homogeneous_partial", "noIntrinsicMain_scale", "flex_homogeneous_run_partial", "run_of_homogeneous",
-    "item_floor_homogeneous", "item_fraction_not_homogeneous", "witness_values", "witness_side_condition",
-    "flex_not_homogeneous", "not_algsHomogeneous_flex"]] + [
+    "flex_homogeneous", "flex_split", "flex_prefix_homogeneous", "flex_main_size_homogeneous",
+    "flex_after_main_homogeneous", "item_fraction_homogeneous", "item_fraction_sign", "item_target_homogeneous",
+    "item_target_eq", "flex_homogeneous_run", "run_of_homogeneous", "algsHomogeneous_flex",
+    "tree_homogeneous_flex_algs", "NoGrid_NoG_real", "NoGrid_scale", "eval_noGrid_congr",
+    "tree_homogeneous_block_flex_leaf_trees", "tree_homogeneous_block_flex_leaf_trees_fresh", "exTree_noGrid"]] + [
     "FlexStages.computePreliminary_split", "FlexStages.flexBaseSizeItem_eq", "FlexStages.intrinsicItem_eq",
     "FlexStages.determineContainerMainSize_eq", "FlexStages.hypotheticalCrossItem_eq", "FlexStages.baselineItems_cons",
     "FlexStages.calculateFlexItem_eq", "FlexStages.absItem_eq",
-    "C04.intrinsicTarget_scale", "C04.inFraction_scale", "C04.intrinsicLines_sim", "C04.afterMain_scale",
-    "C04.computeFlexboxLayout_scale_of", "C04.computeFlexboxLayout_scale_run", "C04.runO_sim"]
+    "C04.intrinsicTarget_scale", "C04.inFraction_scale", "C04.intrinsicLines_scale", "C04.afterMain_scale",
+    "C04.prefixProg_scale", "C04.computeFlexboxLayout_scale", "C04.computeFlexboxLayout_scale_run", "C04.runO_sim",
+    "FlexTrees.eval_algs_congr_grid", "FlexTrees.NoGrid_NoG"]
 
 EVALFLEX_C12_MODULES = ["TaffyVerif.Props.EvalFlexBox"]
 EVALFLEX_C12 = ["C12Flex." + n for n in [
@@ -778,17 +780,18 @@ PROPS["C04"] = {
         "power-of-two factors with lengths <= 2^10 and >= 2^-5 keep every intermediate finite and normal, so exact "
         "homogeneity is the expected outcome of IEEE arithmetic; no theorem relates Float32 to Rat here"],
     "assumptions": ["scale factors are powers of two; the measure function is itself homogeneous (Fixed / Wrap contexts)",
-                    "known finding c04-flex-shrink-floor-at-one: the flex intrinsic main-size path is not homogeneous "
-                    "(flex_shrink x inner_flex_basis floored at 1)",
+                    "former finding c04-flex-shrink-floor-at-one (flex_shrink x inner_flex_basis floored at 1 in the flex intrinsic "
+                    "main-size path) is repaired in flexbox.rs: the attribution to it is still in the harness and is expected to "
+                    "explain 0 cases",
                     "known finding c04-grid-track-threshold (found by this check): grid track sizing compares lengths with the "
                     "absolute constants 0.01 and 1e-6, so homogeneity holds only up to those thresholds (typically last-ulp "
                     "differences from redistributed f32 rounding dust; macroscopic only for sub-0.01px free space)",
                     "a tree on which both layouts panic is skipped (counted as panic:both; one such input class is a C03 matter: "
                     "repeat(auto-fit, ...) columns in a grid whose only children are display:none)"],
-    "level_text": "Theorems at exact rationals, for every k > 0: every modelled function commutes with scaling all lengths by k — length/percentage resolution, the five MaybeMath clamp families, aspect-ratio transfer, margin sets, the measure functions, compute_leaf_layout (output and measure-call arguments), compute_root_layout's parts, the three absolute-positioning copies and their call sites, the flex line functions (freeze loop, justification, positions — no side condition needed), and the WHOLE block algorithm as an interaction program; and tree_homogeneous: the cache-free tree-level evaluator maps the scaled tree/state/input to the scaled output and scaled layouts whenever the container algorithms are homogeneous, which is proved for leaf and block, so trees of block containers and leaves are homogeneous outright. The cache's ε comparison is proved NOT homogeneous (witness) — hence the statement on cache-free evaluation. On the real code the clause is sampled on tree pairs with power-of-two factors, bit-exact.",
-    "level_note": 'partial: flexbox.rs as a whole program (Model/Flex.lean) is proved homogeneous except for the one floor of determine_container_main_size (flexbox.rs l.1095): everything after the main-size determination unconditionally (C04Flex.flex_after_main_homogeneous), the prefix up to its result (C04Flex.flex_prefix_sim), the whole program when the main size is not determined intrinsically (C04Flex.flex_homogeneous_partial) and along every run on which no item hits the floor (C04Flex.flex_homogeneous_run_partial, exact item by item: C04Flex.item_fraction_not_homogeneous); the unconditional statement is refuted on a witness (C04Flex.flex_not_homogeneous, replayed on the real code). Homogeneity of grid is a hypothesis of the tree theorem (sampled by tree pairs). Known findings: flex floor-at-1 of the scaled shrink factor; grid track-sizing THRESHOLD constants. No theorem relates f32 to rational arithmetic; with power-of-two factors every f32 operation commutes with the scaling exactly. Axioms: propext, Classical.choice, Quot.sound.',
+    "level_text": "Theorems at exact rationals, for every k > 0: every modelled function commutes with scaling all lengths by k — length/percentage resolution, the five MaybeMath clamp families, aspect-ratio transfer, margin sets, the measure functions, compute_leaf_layout (output and measure-call arguments), compute_root_layout's parts, the three absolute-positioning copies and their call sites, the flex line functions (freeze loop, justification, positions — no side condition needed), and the WHOLE block algorithm as an interaction program; and tree_homogeneous: the cache-free tree-level evaluator maps the scaled tree/state/input to the scaled output and scaled layouts whenever the container algorithms are homogeneous, which is proved for leaf, block and — unconditionally, since the repair of the scaled flex shrink factor in determine_container_main_size — the WHOLE flexbox algorithm as an interaction program (C04Flex.flex_homogeneous), so trees of block containers, flexbox containers and leaves are homogeneous outright, whatever the grid algorithm (C04Flex.tree_homogeneous_block_flex_leaf_trees). The cache's ε comparison is proved NOT homogeneous (witness) — hence the statement on cache-free evaluation. On the real code the clause is sampled on tree pairs with power-of-two factors, bit-exact.",
+    "level_note": 'flexbox.rs as a whole program (Model/Flex.lean) is proved homogeneous UNCONDITIONALLY (C04Flex.flex_homogeneous: for every k > 0, style, child styles and input the program of the scaled container is the scaled program; pieces: C04Flex.flex_prefix_homogeneous, flex_main_size_homogeneous, flex_after_main_homogeneous; item level: item_fraction_homogeneous, item_target_homogeneous; runs: flex_homogeneous_run), hence AlgsHomogeneous for leaf+block+flex with only the grid hypothesis (C04Flex.algsHomogeneous_flex, tree_homogeneous_flex_algs) and the tree theorem with no hypothesis on trees of block containers, flexbox containers and leaves (C04Flex.tree_homogeneous_block_flex_leaf_trees on NoGrid trees, cache-free evaluator). This holds of the REPAIRED code: flexbox.rs determine_container_main_size now computes the max-content flex fraction of a shrinking item as diff / (f32_max(1.0, flex_shrink) * inner_flex_basis) (0 when that scaled shrink factor is not positive) instead of diff / f32_max(1.0, flex_shrink * inner_flex_basis) — the former finding c04-flex-shrink-floor-at-one, whose witness is kept as a regression example (now homogeneous) and whose refutation C04Flex.flex_not_homogeneous no longer holds. partial: homogeneity of grid is a hypothesis of the tree theorem (sampled by tree pairs). Known finding: grid track-sizing THRESHOLD constants. No theorem relates f32 to rational arithmetic; with power-of-two factors every f32 operation commutes with the scaling exactly. Axioms: propext, Classical.choice, Quot.sound.',
     "technique": 'Lean 4 equivariance proofs (function level + induction over the evaluator) + metamorphic scaled tree pairs on the real TaffyTree',
-    "undischarged": ['AlgsHomogeneous for flex: FALSE (C04Flex.flex_not_homogeneous, known finding c04-flex-shrink-floor-at-one); proved under the static side condition C04.NoIntrinsicMain (C04Flex.flex_homogeneous_partial) and, run by run, under C04.RunFloorFree (C04Flex.flex_homogeneous_run_partial); the tree theorem is not lifted to trees with flex containers', 'AlgsHomogeneous for the grid program (unmodelled as a program): sampled by the tree pairs only'],
+    "undischarged": ['AlgsHomogeneous for the grid program: a hypothesis of the tree theorem on trees with grid containers (refuted on the real code up to the track-sizing thresholds: known finding c04-grid-track-threshold); sampled by the tree pairs only'],
 }
 
 PROPS["C12"] = {
